@@ -32,7 +32,9 @@ ASSUME = [
     "'Unicode text free of control characters' is concretised as sequences of assigned, non-Cc, non-surrogate, "
     "non-noncharacter scalar values in the seeded text; the two scalar values XML 1.0 cannot carry in any form "
     "(U+FFFE, U+FFFF: category Cn, not control characters, valid in a Rust String and in the JSON event file) are "
-    "judged separately on a minimal one-event input with their own signature (trigger=xml-forbidden-noncharacter)",
+    "judged separately on a minimal one-event input with their own signature (trigger=xml-forbidden-noncharacter); "
+    "for exactly those characters (outside the XML 1.0 Char production) U+FFFD in the uploaded text counts as the "
+    "event's text appearing as data, every other character must be identical",
     "an event is 'too large for any batch' when envelope + its own element (standard five-entity escaping) is "
     ">= 65536 bytes; element overhead and envelope are measured from a calibration document, not taken from the code",
     "upload failures are concretised as HTTP 400/500/503, connection reset and connection close after the request "
@@ -271,12 +273,22 @@ def learn_template(c, body):
     return envelope, elem, evs
 
 
+def xml_carriable(s):
+    """the text as XML 1.0 can carry it at best: scalar values outside the Char production
+    (#x9 | #xA | #xD | [#x20-#xD7FF] | [#xE000-#xFFFD] | [#x10000-#x10FFFF]) cannot appear in a document in any
+    form, so U+FFFD in their place counts as the event's text appearing as data; every other character is exact."""
+    def okc(ch):
+        o = ord(ch)
+        return o in (0x9, 0xA, 0xD) or 0x20 <= o <= 0xD7FF or 0xE000 <= o <= 0xFFFD or 0x10000 <= o <= 0x10FFFF
+    return "".join(ch if okc(ch) else "\ufffd" for ch in s)
+
+
 def check_event(ev_obs, ev_src, template):
     """every Param that carries event text has exactly the text; all other structure equals the calibration's"""
     if ev_obs["_order"] != template["_order"]:
         return "structure-altered: params differ from the calibration document"
     for f, names in PARAMS_OF.items():
-        want = expand(ev_src[f])
+        want = xml_carriable(expand(ev_src[f]))
         for nm in names:
             if ev_obs.get(nm) != want:
                 if f in ("pid", "tid"):
